@@ -399,6 +399,32 @@ def run(ctx):
                     getattr(x, op)(y)
                 except Exception:
                     pass
+        # a diagram (built from raw nodes) that tests a variable outside the
+        # ordering, at the root and below it
+        from pyModelChecking.BDD import BDDNode
+        T, Fz = BDDNode(1), BDDNode(0)
+        zed = BDDNode('z', Fz, T)
+        raw = [(zed, ['a', 'b']),
+               (BDDNode('a', zed, T), ['a', 'b']),
+               (BDDNode('a', zed, T), ['b', 'a']),
+               (BDDNode('a', BDDNode('b', zed, Fz), T), ['a', 'b', 'c']),
+               (BDDNode('b', Fz, BDDNode('w', T, Fz)), ['c', 'b', 'a'])]
+        for node, o in raw:
+            LOG.hit('c17.mismatch')
+            LOG.sig['mismatch:raw_node_foreign_variable'] += 1
+            try:
+                OBDD(node, list(o))
+                got = 'built'
+            except RuntimeError:
+                continue
+            except Exception as e:
+                got = mon.fmt_exc(e)
+            LOG.violation('c17.mismatch', PROP,
+                          {'expr': str(node), 'ordering': o,
+                           'route': 'OBDD(BDDNode, ordering)'}, got,
+                          'RuntimeError',
+                          note='a diagram with a variable outside the '
+                               'ordering was not rejected with RuntimeError')
         for expr, o in (('a & z', ['a', 'b']), ('q', ['a']),
                         ('a | (b & w)', ['b', 'a'])):
             LOG.hit('c17.mismatch')
